@@ -303,7 +303,29 @@ class StructureVisitor(ASTTemplate):
             if kind == "ast":
                 return f"({self.visit(val)})"
             return quote_name(node.value)
-        return f"({self.visit(node)})"
+        return f"({self._visit_operand(node)})"
+
+    def _visit_operand(self, node: Optional[AST.AST], detached: bool = False) -> str:
+        """Visit a nested dataset expression with its own structure as the output dataset.
+
+        The statement's output dataset only describes the outermost operator: an operand
+        keeps (or renames) its measures according to its own derived structure. When that
+        structure is unknown the operand is visited under the statement's output dataset,
+        or under none if ``detached``.
+        """
+        struct = self._get_dataset_structure(node)
+        key = f"__operand_{id(node)}__"
+        saved = self.current_assignment
+        if isinstance(struct, Dataset):
+            self.output_datasets[key] = struct
+            self.current_assignment = key
+        elif detached:
+            self.current_assignment = ""
+        try:
+            return self.visit(node)
+        finally:
+            self.current_assignment = saved
+            self.output_datasets.pop(key, None)
 
     def _resolve_dataset_name(self, node: AST.AST) -> str:
         """Resolve a VarID to its actual dataset name (handles UDO params)."""
@@ -399,7 +421,9 @@ class StructureVisitor(ASTTemplate):
         if isinstance(node, AST.MulOp) and node.children:
             if node.op == tokens.EXISTS_IN:
                 return self._build_exists_in_structure(node)
-            return self._get_dataset_structure(node.children[0])
+            return self._with_result_measure(
+                self._get_dataset_structure(node.children[0]), node.op
+            )
         if isinstance(node, AST.Validation):
             return self._build_validation_structure(node)
         if isinstance(node, AST.HROperation):
@@ -467,15 +491,48 @@ class StructureVisitor(ASTTemplate):
         left_is_ds = self._get_node_type(node.left) == _DATASET
         right_is_ds = self._get_node_type(node.right) == _DATASET
         if left_is_ds and right_is_ds:
-            return self._build_ds_ds_binop_structure(node)
+            return self._with_result_measure(self._build_ds_ds_binop_structure(node), op)
         if left_is_ds:
             ds = self._get_dataset_structure(node.left)
             if ds is not None and op in (tokens.IN, tokens.NOT_IN):
                 return self._build_boolean_result_structure(ds)
-            return self._without_attributes(ds)
+            return self._with_result_measure(self._without_attributes(ds), op)
         if right_is_ds:
-            return self._without_attributes(self._get_dataset_structure(node.right))
+            ds = self._without_attributes(self._get_dataset_structure(node.right))
+            return self._with_result_measure(ds, op)
         return None
+
+    def _with_result_measure(
+        self, ds: Optional[Dataset], op: str, unary: bool = False
+    ) -> Optional[Dataset]:
+        """Name the single measure as semantic analysis does when the operator changes its type.
+
+        A comparison over a mono-measure dataset yields ``bool_var``, ``length`` yields
+        ``int_var``, ...: an enclosing operator refers to the measure by that name.
+        """
+        from vtlengine.Utils import BINARY_MAPPING, UNARY_MAPPING
+
+        if op == tokens.BETWEEN:
+            return_type: Any = Boolean
+        else:
+            op_cls = (UNARY_MAPPING if unary else BINARY_MAPPING).get(op)
+            return_type = getattr(op_cls, "return_type", None)
+        if ds is None or return_type is None:
+            return ds
+        measures = ds.get_measures_names()
+        if len(measures) != 1:
+            return ds
+        measure = ds.components[measures[0]]
+        if not measure.data_type.promotion_changed_type(return_type):
+            return ds
+        new_name = COMP_NAME_MAPPING[return_type]
+        comps: Dict[str, Component] = {}
+        for name, comp in ds.components.items():
+            if name == measure.name:
+                comps[new_name] = self._make_comp(new_name, return_type, nullable=comp.nullable)
+            else:
+                comps[name] = comp
+        return Dataset(name=ds.name, components=comps, data=None)
 
     @staticmethod
     def _without_attributes(ds: Optional[Dataset]) -> Optional[Dataset]:
@@ -491,7 +548,7 @@ class StructureVisitor(ASTTemplate):
         ds = self._get_dataset_structure(node.operand)
         if ds is not None and node.op == tokens.ISNULL and len(ds.get_measures_names()) == 1:
             return self._build_boolean_result_structure(ds)
-        return self._without_attributes(ds)
+        return self._with_result_measure(self._without_attributes(ds), node.op, unary=True)
 
     def _build_aggregation_structure(self, node: AST.Aggregation) -> Optional[Dataset]:
         """Resolve an Aggregation (count/sum/avg/…) to its output structure."""
